@@ -318,6 +318,9 @@ func (c *checker) stingy(p protoSpec, seed int64, chunk int, rot int) {
 	if (c.a.Tier == "thorough" || c.a.Search) && !p.Heavy {
 		positions = A.IDs
 	}
+	if p.Heavy && c.a.Tier != "thorough" && !c.a.Search {
+		positions = nil // quick tier: the byte-log tie of the base run only
+	}
 	for _, j := range positions {
 		B := c.run(p, seed, map[sharing.ID]string{j: "b"}, chunk)
 		if B == nil {
